@@ -132,7 +132,6 @@ Qed.
 (* Reply bodies                                                                               *)
 (* ------------------------------------------------------------------------------------------ *)
 
-Lemma std_reply_auth id : std_reply_id id <> None -> True. Proof. auto. Qed.
 
 (* no reply body: exactly the too-short 2019 authentication *)
 Lemma reply_body_none id st m : m_id m = id ->
@@ -856,21 +855,66 @@ Proof. apply idle_drained, seq_sched_idle, init_idle. Qed.
 Lemma cmd_idle c hh cmd body ms : idle c ms -> idle (fst (step c (MCmd hh cmd body))) ms.
 Proof. destruct c. unfold idle. cbn. auto. Qed.
 
-Lemma items_moves_idle its : forall c h, idle c (items_msgs its) -> idle (final c (items_moves h its)) [].
+Lemma response_registered d : is_response d = true ->
+  (exists hi, lookup (m_id (d_m d)) = Some hi) /\ is_reissue d = false.
 Proof.
-  induction its as [|[d|cmd body] its IH]; intros c h I. exact I.
-  - cbn [items_moves]. rewrite final_app. apply IH. apply seq_moves_idle. exact I.
-  - cbn [items_moves]. destruct h as [hh|]; cbn [app].
-    + rewrite final_cons. apply IH. apply cmd_idle. exact I.
-    + apply IH. exact I.
+  unfold is_response, is_reissue, REISSUE. intros R. apply existsb_exists in R. destruct R as [x [Hin E]].
+  apply N.eqb_eq in E. rewrite E. unfold response_ids in Hin. cbn [In] in Hin.
+  repeat (destruct Hin as [<-|Hin]; [split; [eexists; reflexivity|reflexivity]|]). contradiction.
 Qed.
 
-Lemma items_moves_no_absorb its : forall h, no_absorb (items_moves h its) = true.
+(* an outstanding command, then its response: written, looked at, queued, absorbed *)
+Lemma ask_moves_idle c hh cmd body d rest : idle c (d :: rest) ->
+  is_response d = true -> has_complete d = true ->
+  idle (final c [MCmd hh cmd body; MLook; MSend; MAbsorb]) rest.
 Proof.
-  induction its as [|[d|cmd body] its IH]; intros h. reflexivity.
-  - cbn [items_moves]. unfold no_absorb in *. rewrite forallb_app, IH.
+  destruct c as [pend hand q rq sq h]. unfold idle. cbn [c_hand c_q c_rq c_pending].
+  intros (-> & -> & -> & ->) R C. destruct (response_registered d R) as [[hi Hl] Hr].
+  rewrite !final_cons. cbn [final step]. unfold writer_cmd, emit. cbn [fst c_hand c_pending c_q c_rq c_seq c_h].
+  unfold reader_look. cbn [c_hand c_pending c_q c_rq c_seq c_h]. rewrite Hl. cbn [fst].
+  unfold reader_send. cbn [c_hand c_pending c_q c_rq c_seq c_h]. rewrite Hr.
+  change (len (@nil dmsg) <? MSG_CAP) with true. cbn [fst app].
+  unfold writer_absorb. cbn [c_q]. rewrite R, C. cbn [andb fst c_hand c_q c_rq c_pending]. auto.
+Qed.
+
+Lemma asks_ok_cons it its : asks_ok (it :: its) = true ->
+  (match it with IAsk _ _ d => is_response d = true /\ has_complete d = true | _ => True end) /\ asks_ok its = true.
+Proof.
+  unfold asks_ok. cbn [forallb]. intros H. apply andb_true_iff in H. destruct H as [H1 H2]. split; auto.
+  destruct it; auto. apply andb_true_iff in H1. exact H1.
+Qed.
+
+Lemma items_moves_idle its : forall c h, asks_ok its = true -> idle c (items_msgs its) ->
+  idle (final c (items_moves h its)) [].
+Proof.
+  induction its as [|[d|cmd body|cmd body d] its IH]; intros c h A I. exact I.
+  - apply asks_ok_cons in A. destruct A as [_ A].
+    cbn [items_moves]. rewrite final_app. apply IH; auto. apply seq_moves_idle. exact I.
+  - apply asks_ok_cons in A. destruct A as [_ A].
+    cbn [items_moves]. destruct h as [hh|]; cbn [app].
+    + rewrite final_cons. apply IH; auto; try (apply cmd_idle; exact I).
+    + apply IH; auto.
+  - apply asks_ok_cons in A. destruct A as [[R C] A].
+    cbn [items_moves]. rewrite final_app. apply IH; auto.
+    destruct h as [hh|].
+    + cbn [items_msgs flat_map app] in I. apply (ask_moves_idle c hh cmd body d _ I R C).
+    + apply seq_moves_idle. exact I.
+Qed.
+
+Lemma no_asks_ok its : no_asks its = true -> asks_ok its = true.
+Proof.
+  unfold no_asks, asks_ok. induction its as [|it its IH]; cbn [forallb]; intros H. reflexivity.
+  apply andb_true_iff in H. destruct H as [H1 H2]. rewrite (IH H2). destruct it; try reflexivity. discriminate.
+Qed.
+
+Lemma items_moves_no_absorb its : forall h, no_asks its = true -> no_absorb (items_moves h its) = true.
+Proof.
+  induction its as [|[d|cmd body|cmd body d] its IH]; intros h A. reflexivity.
+  - cbn [no_asks forallb] in A. cbn [items_moves]. unfold no_absorb in *. rewrite forallb_app, IH by exact A.
     cbn [seq_moves forallb]. destruct (is_reissue d); reflexivity.
-  - cbn [items_moves]. unfold no_absorb in *. rewrite forallb_app, IH. destruct h; reflexivity.
+  - cbn [no_asks forallb] in A. cbn [items_moves]. unfold no_absorb in *. rewrite forallb_app, IH by exact A.
+    destruct h; reflexivity.
+  - discriminate A.
 Qed.
 
 (* ------------------------------------------------------------------------------------------ *)
@@ -898,11 +942,11 @@ Theorem one_reply_each_run ms :
   srcs (replies (run ms)) = filter answered ms /\ Forall reply_ok (replies (run ms)).
 Proof. apply one_reply_each. apply seq_sched_no_absorb. apply seq_sched_drained. Qed.
 
-Theorem one_reply_each_items its :
+Theorem one_reply_each_items its : no_asks its = true ->
   srcs (replies (run_items its)) = filter answered (items_msgs its) /\ Forall reply_ok (replies (run_items its)).
 Proof.
-  apply one_reply_each. apply items_moves_no_absorb.
-  apply idle_drained, items_moves_idle, init_idle.
+  intros A. apply one_reply_each. now apply items_moves_no_absorb.
+  apply idle_drained, items_moves_idle; [now apply no_asks_ok|apply init_idle].
 Qed.
 
 (* each reply decodes to: reply type, sender's phone and version, platform serial, prescribed body *)
@@ -1038,6 +1082,9 @@ Fixpoint items_writes (h : option msg) (its : list item) : list (wkind * option 
   | IMsg d :: t =>
     msg_writes d ++ items_writes (match h with Some _ => h | None => if joins d then Some (d_m d) else None end) t
   | ICmd _ _ :: t => (match h with Some _ => [(WCmd, None)] | None => [] end) ++ items_writes h t
+  | IAsk _ _ d :: t =>
+    (match h with Some _ => [(WCmd, None)] | None => msg_writes d end)
+    ++ items_writes (match h with Some _ => h | None => if joins d then Some (d_m d) else None end) t
   end.
 
 Lemma reissue_registered d : is_reissue d = true -> exists hi, lookup (m_id (d_m d)) = Some hi.
@@ -1074,23 +1121,44 @@ Proof.
     unfold writer_reply. cbn [c_q snd]. reflexivity.
 Qed.
 
-Theorem conversation_writes its : forall c h, idle c (items_msgs its) ->
-  map wtag (writes (trace c (items_moves h its))) = items_writes h its.
+Lemma ask_moves_writes c hh cmd body d rest : idle c (d :: rest) ->
+  is_response d = true -> has_complete d = true ->
+  map wtag (writes (trace c [MCmd hh cmd body; MLook; MSend; MAbsorb])) = [(WCmd, None)].
 Proof.
-  induction its as [|[d|cmd body] its IH]; intros c h I. reflexivity.
-  - cbn [items_moves items_writes]. rewrite trace_app, writes_app, map_app.
-    cbn [items_msgs flat_map app] in I.
-    rewrite (seq_moves_writes c d _ I). f_equal. apply IH. now apply seq_moves_idle.
-  - cbn [items_moves items_writes]. destruct h as [hh|]; cbn [app].
-    + rewrite trace_cons, writes_app, map_app.
-      change ((WCmd, @None dmsg) :: items_writes (Some hh) its) with ([(WCmd, @None dmsg)] ++ items_writes (Some hh) its).
-      f_equal. apply IH. apply cmd_idle. exact I.
-    + apply IH. exact I.
+  destruct c as [pend hand q rq sq h]. unfold idle. cbn [c_hand c_q c_rq c_pending].
+  intros (-> & -> & -> & ->) R C. destruct (response_registered d R) as [[hi Hl] Hr].
+  rewrite !trace_cons. cbn [trace step]. unfold writer_cmd, emit. cbn [fst snd c_hand c_pending c_q c_rq c_seq c_h].
+  unfold reader_look. cbn [c_hand c_pending c_q c_rq c_seq c_h]. rewrite Hl, Hr, C. cbn [fst snd].
+  unfold reader_send. cbn [c_hand c_pending c_q c_rq c_seq c_h]. rewrite Hr.
+  change (len (@nil dmsg) <? MSG_CAP) with true. cbn [fst snd app].
+  unfold writer_absorb. cbn [c_q]. rewrite R, C. cbn [andb fst snd]. reflexivity.
 Qed.
 
-Theorem conversation_writes_run its :
+Theorem conversation_writes its : forall c h, asks_ok its = true -> idle c (items_msgs its) ->
+  map wtag (writes (trace c (items_moves h its))) = items_writes h its.
+Proof.
+  induction its as [|[d|cmd body|cmd body d] its IH]; intros c h A I. reflexivity.
+  - apply asks_ok_cons in A. destruct A as [_ A].
+    cbn [items_moves items_writes]. rewrite trace_app, writes_app, map_app.
+    cbn [items_msgs flat_map app] in I.
+    rewrite (seq_moves_writes c d _ I). f_equal. apply IH; auto. now apply seq_moves_idle.
+  - apply asks_ok_cons in A. destruct A as [_ A].
+    cbn [items_moves items_writes]. destruct h as [hh|]; cbn [app].
+    + rewrite trace_cons, writes_app, map_app.
+      change ((WCmd, @None dmsg) :: items_writes (Some hh) its) with ([(WCmd, @None dmsg)] ++ items_writes (Some hh) its).
+      f_equal. apply IH; auto; try (apply cmd_idle; exact I).
+    + apply IH; auto.
+  - apply asks_ok_cons in A. destruct A as [[R C] A].
+    cbn [items_moves items_writes]. rewrite trace_app, writes_app, map_app.
+    cbn [items_msgs flat_map app] in I.
+    destruct h as [hh|].
+    + rewrite (ask_moves_writes c hh cmd body d _ I R C). f_equal. apply IH; auto. apply (ask_moves_idle c hh cmd body d _ I R C).
+    + rewrite (seq_moves_writes c d _ I). f_equal. apply IH; auto. now apply seq_moves_idle.
+Qed.
+
+Theorem conversation_writes_run its : asks_ok its = true ->
   map wtag (writes (run_items its)) = items_writes None its.
-Proof. apply conversation_writes. apply init_idle. Qed.
+Proof. intros A. apply conversation_writes; auto. apply init_idle. Qed.
 
 (* ------------------------------------------------------------------------------------------ *)
 (* Histories WITH absorption (no [no_absorb] hypothesis)                                      *)
@@ -1235,3 +1303,186 @@ Proof.
   pose proof (replies_any_schedule_no1003 (init ms) s) as R. rewrite phi_init in R. specialize (R F).
   rewrite (phi_drained _ D), app_nil_r in R. exact R.
 Qed.
+
+(* conversations with outstanding commands: every answered message is replied to or handed over *)
+Theorem outcomes_items its : asks_ok its = true ->
+  outcomes (run_items its) = filter answered (items_msgs its).
+Proof.
+  intros A. apply outcomes_each. apply idle_drained, items_moves_idle; auto. apply init_idle.
+Qed.
+
+(* ------------------------------------------------------------------------------------------ *)
+(* Read callbacks of the Handler as well as of the TerminalEventer                            *)
+(* ------------------------------------------------------------------------------------------ *)
+Definition read_srcs_h (t : list obs) : list dmsg :=
+  flat_map (fun o => match o with OReadH d => [d] | _ => [] end) t.
+Lemma read_srcs_h_app a b : read_srcs_h (a ++ b) = read_srcs_h a ++ read_srcs_h b.
+Proof. unfold read_srcs_h. apply flat_map_app. Qed.
+
+Lemma read_srcs_h_step c mv : read_srcs_h (snd (step c mv)) = read_srcs (snd (step c mv)).
+Proof.
+  destruct c as [pend hand q rq sq h].
+  destruct mv as [| | | | |hh cmd body]; cbn [step].
+  - unfold reader_look. cbn [c_hand c_pending c_q c_rq c_seq c_h].
+    destruct hand; [reflexivity|]. destruct pend as [|d rest]; [reflexivity|].
+    destruct (lookup (m_id (d_m d))); cbn [snd]; [|reflexivity].
+    destruct (is_reissue d), (has_complete d); reflexivity.
+  - unfold reader_send. cbn [c_hand c_pending c_q c_rq c_seq c_h]. destruct hand as [d|]; [|reflexivity].
+    destruct (is_reissue d); [destruct (len rq <? REISSUE_CAP)|destruct (len q <? MSG_CAP)]; reflexivity.
+  - destruct q as [|d q]; [reflexivity|].
+    set (c := {| c_pending := pend; c_hand := hand; c_q := d :: q; c_rq := rq; c_seq := sq; c_h := h |}).
+    pose proof (writer_reply_spec c d q eq_refl) as S.
+    destruct (answered d).
+    + destruct S as (rid & body & h' & _ & _ & _ & ->). reflexivity.
+    + destruct S as (h' & -> & _). reflexivity.
+  - unfold writer_absorb. cbn [c_q]. destruct q as [|d q]; [reflexivity|].
+    destruct (is_response d && has_complete d); reflexivity.
+  - unfold writer_rereq. cbn [c_rq]. destruct rq as [|d rq']; [reflexivity|]. unfold emit. cbn [snd].
+    destruct (has_complete d); reflexivity.
+  - reflexivity.
+Qed.
+
+Lemma read_srcs_h_eq c s : read_srcs_h (trace c s) = read_srcs (trace c s).
+Proof.
+  revert c. induction s as [|mv s IH]; intros c. reflexivity.
+  rewrite trace_cons, read_srcs_h_app, read_srcs_app, IH, read_srcs_h_step. reflexivity.
+Qed.
+
+Theorem callbacks_read_before_reply_h ms s : no_absorb s = true ->
+  exists queued, filter answered (read_srcs_h (trace (init ms) s)) = srcs (replies (trace (init ms) s)) ++ queued.
+Proof. intros H. rewrite read_srcs_h_eq. now apply callbacks_read_before_reply. Qed.
+
+(* ------------------------------------------------------------------------------------------ *)
+(* Any number of concurrent connections: each one runs as if it were alone                    *)
+(* ------------------------------------------------------------------------------------------ *)
+Lemma upd_nth_same {A} (l : list A) i x : nth_error (upd l i x) i = match nth_error l i with Some _ => Some x | None => None end.
+Proof.
+  revert i. induction l as [|y l IH]; intros [|i]; cbn [upd nth_error]; auto.
+Qed.
+Lemma upd_nth_other {A} (l : list A) i j x : i <> j -> nth_error (upd l i x) j = nth_error l j.
+Proof.
+  revert i j. induction l as [|y l IH]; intros [|i] [|j] H; cbn [upd nth_error]; auto. congruence.
+Qed.
+
+Lemma proj_obs_app i a b : proj_obs i (a ++ b) = proj_obs i a ++ proj_obs i b.
+Proof. unfold proj_obs. apply flat_map_app. Qed.
+Lemma proj_obs_tag_same i l : proj_obs i (map (fun o => (i, o)) l) = l.
+Proof.
+  unfold proj_obs. induction l as [|o l IH]; cbn [map flat_map fst snd]. reflexivity.
+  rewrite Nat.eqb_refl. cbn [app]. now rewrite IH.
+Qed.
+Lemma proj_obs_tag_other i j l : j <> i -> proj_obs i (map (fun o => (j, o)) l) = [].
+Proof.
+  intros H. unfold proj_obs. induction l as [|o l IH]; cbn [map flat_map fst snd]. reflexivity.
+  replace (Nat.eqb j i) with false by (symmetry; now apply Nat.eqb_neq). exact IH.
+Qed.
+
+Theorem connections_independent s : forall cs i,
+  nth_error (gfinal cs s) i = option_map (fun c => final c (proj_moves i s)) (nth_error cs i) /\
+  proj_obs i (gtrace cs s) = match nth_error cs i with Some c => trace c (proj_moves i s) | None => [] end.
+Proof.
+  induction s as [|[j mv] s IH]; intros cs i.
+  - cbn [gfinal gtrace proj_moves proj_obs flat_map]. destruct (nth_error cs i); split; reflexivity.
+  - cbn [gfinal gtrace]. rewrite proj_obs_app. unfold gstep. cbn [fst snd].
+    unfold proj_moves. cbn [flat_map fst snd]. fold (proj_moves i s).
+    destruct (nth_error cs j) as [cj|] eqn:Ej; cbn [fst snd].
+    + destruct (Nat.eqb_spec j i) as [->|Hne].
+      * destruct (IH (upd cs i (fst (step cj mv))) i) as [I1 I2].
+        rewrite I1, I2, upd_nth_same, Ej, proj_obs_tag_same. cbn [option_map app].
+        split; reflexivity.
+      * destruct (IH (upd cs j (fst (step cj mv))) i) as [I1 I2].
+        rewrite I1, I2, (upd_nth_other cs j i _ Hne), (proj_obs_tag_other i j _ Hne). cbn [app].
+        split; reflexivity.
+    + destruct (IH cs i) as [I1 I2]. rewrite I1, I2. cbn [app].
+      destruct (Nat.eqb_spec j i) as [->|Hne]; [|split; reflexivity].
+      rewrite Ej. cbn [option_map app]. split; reflexivity.
+Qed.
+
+(* what every C06 statement about ONE connection therefore says about connection i of a server with
+   any number of connections under any interleaving: e.g. the platform serials written on connection i *)
+Corollary serials_concurrent mss s i ms : nth_error mss i = Some ms ->
+  let t := proj_obs i (gtrace (map init mss) s) in
+  map w_ps (writes t) = map serial_no (seq 0 (length (writes t))).
+Proof.
+  intros H t. subst t. destruct (connections_independent s (map init mss) i) as [_ E].
+  rewrite E, nth_error_map, H. cbn [option_map]. apply serials.
+Qed.
+
+Corollary outcomes_concurrent mss s i ms : nth_error mss i = Some ms ->
+  exists later, outcomes (proj_obs i (gtrace (map init mss) s)) ++ later = filter answered ms.
+Proof.
+  intros H. destruct (connections_independent s (map init mss) i) as [_ E].
+  rewrite E, nth_error_map, H. cbn [option_map]. apply outcomes_prefix.
+Qed.
+
+Corollary one_reply_each_concurrent mss s i ms : nth_error mss i = Some ms ->
+  no_absorb (proj_moves i s) = true ->
+  (exists c, nth_error (gfinal (map init mss) s) i = Some c /\ drained c = true) ->
+  srcs (replies (proj_obs i (gtrace (map init mss) s))) = filter answered ms /\
+  Forall reply_ok (replies (proj_obs i (gtrace (map init mss) s))).
+Proof.
+  intros H NA (c & Hc & D). destruct (connections_independent s (map init mss) i) as [F E].
+  rewrite E, nth_error_map, H. cbn [option_map].
+  rewrite F, nth_error_map, H in Hc. cbn [option_map] in Hc. inversion Hc; subst c.
+  now apply one_reply_each.
+Qed.
+
+(* ------------------------------------------------------------------------------------------ *)
+(* Where the code does NOT do what the property says (recorded findings)                      *)
+(* ------------------------------------------------------------------------------------------ *)
+(* C06/1003-absorbed-no-reply: a complete 0x1003 (HasReply true) that arrives while a 0x9003 query is
+   outstanding is handed to the waiting caller and gets no 0x8001 *)
+Definition ex_1003 : list N := encode ex_hdr 0x1003 5 [1; 1; 2; 2; 0; 3; 2; 1; 1; 2].
+Definition ex_hb : list N := encode ex_hdr 0x0002 4 [].
+Definition dm (f : list N) : list dmsg :=
+  match decode f with Ok m => [{| d_m := m; d_complete := false; d_data := f |}] | _ => [] end.
+
+Lemma refuted_1003_absorbed :
+  exists ms s, length ms = 1%nat /\ Forall dmsg_wf ms /\ filter answered ms = ms /\
+    drained (final (init ms) s) = true /\
+    replies (trace (init ms) s) = [] /\ absorbed (trace (init ms) s) = ms.
+Proof.
+  exists (dm ex_1003), [MLook; MSend; MAbsorb].
+  split. vm_compute. reflexivity.
+  split.
+  { unfold dm. assert (B : bytes ex_1003) by (apply bytesb_spec; vm_compute; reflexivity).
+    destruct (decode ex_1003) eqn:D; [|vm_compute in D; discriminate..].
+    constructor; [|constructor]. apply (decoded_dmsg_wf ex_1003); auto. }
+  repeat split; vm_compute; reflexivity.
+Qed.
+
+(* the same inside a conversation: heartbeat, query 0x9003 left outstanding, the terminal's 0x1003:
+   two frames are written (the heartbeat's reply, the command), none for the 0x1003 *)
+Lemma example_ask_conversation :
+  match dm ex_hb, dm ex_1003 with
+  | [a], [b] =>
+    let its := [IMsg a; IAsk 0x9003 [] b] in
+    asks_ok its = true /\ map fst (map wtag (writes (run_items its))) = [WReply; WCmd] /\
+    filter answered (items_msgs its) = [a; b] /\ outcomes (run_items its) = [a; b] /\
+    absorbed (run_items its) = [b]
+  | _, _ => False
+  end.
+Proof. vm_compute. repeat split; reflexivity. Qed.
+
+(* C06/0801-short-body: T0x0801.ReplyBody ignores the error of its Parse; an upload whose body is
+   shorter than the 36 bytes Parse demands is answered with the multimedia id of the PREVIOUS upload on
+   the connection (0 on a fresh one), not with the id its own first four bytes carry *)
+Definition ex_0801_a : list N := encode ex_hdr 0x0801 1 ([0; 0; 0; 7] ++ repeat 0 32).
+Definition ex_0801_b : list N := encode ex_hdr 0x0801 2 [0; 0; 0; 9; 1; 2; 3; 4; 5; 6].
+
+Lemma refuted_0801_short_body :
+  map w_body (replies (run (dm ex_0801_a ++ dm ex_0801_b))) = [[0; 0; 0; 7]; [0; 0; 0; 7]] /\
+  map w_body (replies (run (dm ex_0801_b))) = [[0; 0; 0; 0]] /\
+  map (fun d => (sub (m_body (d_m d)) 0 4, body_wf (d_m d))) (dm ex_0801_b) = [([0; 0; 0; 9], false)].
+Proof. repeat split; vm_compute; reflexivity. Qed.
+
+(* a conversation through the non-default branches of body_wf / std_body: a well-formed 0x0801, a
+   well-formed 0x1212, a 0x1003 *)
+Definition ex_1212 : list N := encode ex_hdr 0x1212 3 [3; 97; 46; 98; 0; 0; 0; 0; 9].
+Lemma example_conversation2 :
+  let ms := dm ex_0801_a ++ dm ex_1212 ++ dm ex_1003 in
+  map (fun d => body_wf (d_m d)) ms = [true; true; true] /\
+  map (fun w => (w_rid w, w_ps w, w_body w)) (writes (run ms)) =
+  [ (0x8800, 0, [0; 0; 0; 7]); (0x9212, 1, [3; 97; 46; 98; 0; 0; 0]); (0x8001, 2, []) ] /\
+  map (fun d => std_body (d_m d)) ms = [[0; 0; 0; 7]; [3; 97; 46; 98; 0; 0; 0]; []].
+Proof. repeat split; vm_compute; reflexivity. Qed.
